@@ -441,6 +441,23 @@ def R4_mint_admission(run):
                   "a mint with extension %s can be accepted" % name, loc=fn.loc(), detail="Ok(false) with and without badge")
     run.check("R4", "wildcard", rejected(outcome(False, otherwise)) and rejected(outcome(True, otherwise)),
               "unknown / unlisted extensions are not rejected by the wildcard arm", loc=fn.loc(), detail="otherwise-arm -> Ok(false)")
+    # an arm may reject the mint or go on to the next extension, never accept it: from the extension switch no value other than
+    # Ok(false) (or an error) is returned without first coming back to the loop head, so every extension of the mint is looked at
+    heads = [bi for bi, t_ in fn.calls() if (callee_path(t_) or "").endswith("::next") and cfg.dominates(fn, bi, sw)]
+    early = []
+    if heads:
+        body = cfg.reach(fn, sw, cut_blocks=[heads[-1]])
+        for bi in sorted(body):
+            for si, st in enumerate(fn.blocks[bi]["s"]):
+                if st["k"] == "=" and st["p"]["l"] == 0 and "p" not in st["p"]:
+                    tt = pv._rvalue(st["rv"], bi, si, 0)
+                    if tt[0] == "agg" and tt[2] == "Ok" and const_val(dict(tt[3]).get("0")) == 0 and strip(dict(tt[3]).get("0"))[0] == "const":
+                        continue
+                    if tt[0] == "agg" and tt[2] == "Err":
+                        continue
+                    early.append((bi, sh(tt, 60)))
+    run.check("R4", "arms-only-reject", bool(heads) and not early, "an extension arm of is_supported_token_mint returns %s without looking at the remaining extensions" %
+              (early[0][1] if early else "?"), loc=fn.loc(fn.blocks[early[0][0]]["t"].get("l") if early else None), detail="from the extension switch: Ok(false), an error, or back to the loop head")
     # no gated / never variant shares the target of an always-supported arm
     # freeze authority & native mint & token program atoms
     ats = A.atoms(fn)
